@@ -402,7 +402,7 @@ def jobs_for(prop, tier):
     if prop == 'C05':
         return jobs_c05(tier) + [j for j in jobs_option_below(tier) if j[1][3] in ('num', 'localindex')] + jobs_flatten(tier)
     if prop == 'C09':
-        return jobs_c09(tier) + [j for j in jobs_option_below(tier) if j[1][3] in ('rpad', 'rpad_and_clip')] + jobs_simplify(tier) + jobs_fillna(tier)
+        return jobs_c09(tier) + [j for j in jobs_option_below(tier) if j[1][3] in ('rpad', 'rpad_and_clip')] + jobs_simplify(tier) + jobs_fillna(tier) + jobs_bytemask(tier)
     if prop == 'C11':
         return jobs_simplify(tier)
     if prop == 'C07':
@@ -3885,4 +3885,69 @@ def jobs_numpy_sort(tier):
                 for asc in (True, False):
                     for st in ((True, False) if tier != 'quick' or dt in ('int64', 'float64') else (True,)):
                         js.append((h_numpy_sort, (dt, P, asc, st, arg), 1800))
+    return js
+
+
+# ------------------------------------------------------------------------------------------------ C09: is_none (bytemask) of every option encoding
+@guard
+def h_bytemask(cls, pattern, variant):
+    """bytemask() - what is_none reads - of the option-type classes: one byte per entry, non-zero exactly at the missing entries, whatever the
+    encoding (negative index of any value, mask byte of any non-zero value in either polarity, bit mask in either bit order and polarity, no mask)"""
+    pattern = tuple(bool(x) for x in pattern)
+    n = len(pattern)
+    short, src = OPTION_CLASSES[cls]
+    nc = NodeCtx(['IA', 'BMA', 'BIT', 'UMA', 'IDX', 'CNT', 'UTL', 'KD', 'IDS'], [], unwind=max(10, 2 * n + 24))
+    if cls == 'IndexedOptionArray64':
+        this, idx = build_option64(nc, pattern)
+        head = lambda model: 'option64 %s ' % fullnative.ints([model.eval(x, model_completion=True).as_signed_long() for x in idx])
+    elif cls == 'ByteMaskedArray':
+        this, mk = build_bytemasked(nc, pattern, variant)
+        head = lambda model: 'bytemask %s %d ' % (fullnative.ints([model.eval(x, model_completion=True).as_signed_long() for x in mk]), 1 if variant else 0)
+    elif cls == 'BitMaskedArray':
+        vw, lsb = variant
+        this, a0 = build_bitmasked(nc, pattern, vw, lsb)
+        nbytes = (n + 7) // 8 or 1
+        head = lambda model: 'bitmask %s %d %d %d ' % (fullnative.ints([model.eval(z3.Select(a0, BV(k)), model_completion=True).as_long() for k in range(nbytes)]), 1 if vw else 0, n, 1 if lsb else 0)
+    else:
+        if any(pattern):
+            raise Unsupported('an UnmaskedArray has no missing entries')
+        this, vals = build_unmasked(nc, n)
+        head = lambda model: 'unmasked '
+    nc.m.record('ret', {})
+    out = nc.m.call('_ZNK7awkward%s8bytemaskEv' % short, [Ptr('ret', 0), this])
+    obls = [('bytemask does not raise', out.raised)]
+    terms, ln = nc.index_terms(out.mem, Ptr('ret', 0), 'byte mask')
+    obls.append(('one byte per entry', z3.BoolVal(ln != n)))
+    for i in range(min(n, ln)):
+        t = terms[i]
+        t8 = z3.Extract(7, 0, t) if t.size() > 8 else t
+        obls.append(('entry %d: non-zero exactly when the entry is missing' % i, (t8 != 0) != z3.BoolVal(pattern[i])))
+
+    def replay(model, ent):
+        lc = max(model.eval(nc.lencontent, model_completion=True).as_signed_long(), n)
+        if cls == 'IndexedOptionArray64':
+            lc = max([lc] + [model.eval(x, model_completion=True).as_signed_long() + 1 for x in idx])
+        if lc > 100:
+            return False, 'content too long to replay', {}
+        prog = 'i64 %s ' % fullnative.ints(range(lc)) + head(model) + 'maskof'
+        kind_, got = fullnative.akrun(prog)
+        exp = [bool(p) for p in pattern]
+        payload = dict(program=prog, native=[kind_, got], expected=exp)
+        if kind_ != 'OK' or [bool(x) for x in got] != exp:
+            return True, '%s bytemask(): native library %s %s, missing entries are %s' % (cls, kind_, str(got)[:150], exp), payload
+        return False, 'native library agrees (%s)' % got, payload
+    return mdischarge(nc.m, '%s::bytemask pattern=%s variant=%s' % (cls, ''.join('N' if p else 'v' for p in pattern), variant), obls, [], replay=replay, prefer=[nc.lencontent <= 12],
+                      extra=dict(bounds='%d entries, missing pattern concrete (case split), index / mask byte values symbolic' % n))
+
+
+def jobs_bytemask(tier):
+    js = []
+    pats = [(0, 1, 0), (1, 0, 0, 1, 1, 0, 0, 1, 1), (0, 0)] if tier == 'quick' else [p for k in (1, 2, 3) for p in itertools.product((0, 1), repeat=k)] + [(1, 0, 0, 1, 1, 0, 0, 1, 1), (0,) * 8 + (1,), (1,) * 9]
+    for p in pats:
+        js.append((h_bytemask, ('IndexedOptionArray64', p, None), 900))
+        for vw in (True, False):
+            js.append((h_bytemask, ('ByteMaskedArray', p, vw), 900))
+        for vw, lsb in itertools.product((True, False), repeat=2):
+            js.append((h_bytemask, ('BitMaskedArray', p, (vw, lsb)), 900))
+    js.append((h_bytemask, ('UnmaskedArray', (0, 0, 0), None), 900))
     return js
